@@ -65,7 +65,10 @@ class MinMax(LibFn):
             h = K.heap
             H = h.term()
             ref = V.lref(K.term(0))
-            res = L.term('result')
+            # the running extremum is whatever local the function returns (not a name the contract insists on)
+            import ast as _ast
+            rets = [n for n in _ast.walk(L.frame.fn_node) if isinstance(n, _ast.Return) and isinstance(n.value, _ast.Name)]
+            res = L.term(rets[-1].value.id if rets else 'result')
             # the flag is an incidental temporary of the current code: its clause is stated only while the local exists
             flag = []
             if L.has('is_first'):
